@@ -125,6 +125,20 @@ class Gen:
         for f in lv.get("fields", []):
             L.append('VH_REG_FIELD("%s:%s", %s, %s, %s, %s);' % (key, f["name"], M, fn, f["name"],
                                                              "true" if self.is_const_field(f) else "false"))
+        for f in lv.get("fields", []):
+            if self.is_const_field(f):
+                continue
+            e = self.field_enc(f)
+            while e["kind"] == "ref":
+                e = self.types[e["type"]]
+            ln = e.get("length", 1) if e["kind"] == "type" else 1
+            ln = 1 if ln is None else ln
+            scalar = (e["kind"] == "type" and ln == 1) or e["kind"] in ("enum", "set")
+            L.append('VH_REG_CMEMBER_%s("%s:%s", %s, %s, %s);' % ("scalar" if scalar else "view", key, f["name"], M, fn, f["name"]))
+        for g in lv.get("groups", []):
+            L.append('VH_REG_CMEMBER_view("%s:%s", %s, %s, %s);' % (key, g["name"], M, fn, g["name"]))
+        for d in lv.get("data", []):
+            L.append('VH_REG_CMEMBER_view("%s:%s", %s, %s, %s);' % (key, d["name"], M, fn, d["name"]))
         for g in lv.get("groups", []):
             L.append('VH_REG_GROUP("%s:%s", %s, %s, %s);' % (key, g["name"], M, fn, g["name"]))
         for d in lv.get("data", []):
